@@ -184,7 +184,8 @@ fn main() {
     // C14: `lterm!` denotes the written term
     if id == "C14" && ctx.replay.is_none() {
         let env: pvmc::conv::Env<prelude::DU, prelude::DE> = pvmc::conv::Env::new(2);
-        let expected = pvmc::surface::c14_lterm_terms();
+        // every term is written twice: flat, and with list literals in tail position
+        let expected: Vec<T> = pvmc::surface::c14_lterm_terms().into_iter().flat_map(|t| vec![t.clone(), t]).collect();
         match guarded(|| generated::lterms(&env.vars[0], &env.vars[1])) {
             Ok(built) => {
                 if built.len() != expected.len() {
